@@ -197,6 +197,9 @@ impl Client {
                     if let Some(search) = current_search.take() {
                         search.wait_cancel();
                     }
+
+                    // A new game must not see the search memory of the previous one
+                    previous_artifact = None;
                 }
                 Some((&"quit", _)) => break,
                 Some((&".state", _)) => {
